@@ -406,6 +406,30 @@ def run_harness(h, keep=False, extra_defines=()):
             raise Undecided('cbmc produced no result (rc=%s): %s' % (rc, '\n'.join(msgs[-15:])))
         if any(r_['status'] == 'ERROR' for r_ in results):
             raise Undecided('cbmc reported ERROR status (solver failure / out of memory?): %s' % ' | '.join(msgs[-6:]))
+        # reachability accounting (opt-in, meta "reachability": true): a safety check that symbolic execution never reaches
+        # from this harness (e.g. the other 200 cases of eval_instruction's switch) is reported SUCCESS by CBMC; it is not an
+        # obligation this harness discharged.  A second run with --cover assertion says which checks are reachable.
+        reach = None
+        if h.meta.get('reachability'):
+            ccmd = ['cbmc', b] + h.flags + (['--unwind', str(h.unwind)] if h.unwind else []) + ['--cover', 'assertion', '--json-ui']
+            res['cmds'].append(' '.join(ccmd))
+            coutp = os.path.join(scratch, 'cover.json')
+            with open(coutp, 'w') as fo:
+                rc2, _, err2, dt2 = run(ccmd, cwd=scratch, timeout=h.timeout, mem_gb=h.mem_gb, stdout=fo)
+            res['solver_s'] = round(res['solver_s'] + dt2, 2)
+            try:
+                cdoc = json.load(open(coutp))
+                goals = [g for x in cdoc if 'goals' in x for g in x['goals']]
+            except Exception as e:
+                raise Undecided('reachability run unreadable (rc=%s, %s)' % (rc2, e))
+            if not goals:
+                raise Undecided('reachability run produced no goals')
+            reach = set()
+            for g in goals:
+                if g.get('status') == 'satisfied':
+                    sl = g.get('sourceLocation', {})
+                    reach.add((sl.get('file', ''), sl.get('function', ''), str(sl.get('line', '')), g.get('description', '')))
+            res['reachable_checks'] = len(reach)
         real_fns = set(plain(f) for f in (h.functions if h.functions is not None else
                                           ([h.enforce] if h.enforce else []) + [i['function'] for i in h.injections if 'function' in i]))
         srcs = {}
@@ -460,6 +484,9 @@ def run_harness(h, keep=False, extra_defines=()):
                     kind = 'sanity'
             else:
                 kind = 'sanity'
+            if reach is not None and kind == 'obligation' and r_['status'] != 'FAILURE' and \
+                    (f, fn, str(sl.get('line', '')), r_.get('description', '')) not in reach:
+                kind = 'unreached'
             for ig in h.ignore:
                 if ig.get('class', cls) == cls and ig.get('text_contains', '') in text and ig.get('desc_contains', '') in desc and kind == 'obligation':
                     kind = 'out-of-scope'
